@@ -24,9 +24,53 @@ def same_callable_events(u, U):
     return gen
 
 
+def reuse_events(u, U, uo, UO, n, seed):
+    """the SAME signature objects used by several operations one after the other: what an earlier operation did to its inputs shows in the next"""
+    import random
+    from sigtools import signatures
+
+    def gen(shard, nshards):
+        rnd = random.Random(seed)
+        for k in range(n):
+            a, b = rnd.randrange(len(UO)), rnd.randrange(len(U))
+            if k % nshards != shard:
+                continue
+            o, s = uo.sig(a, 1), u.sig(b, 2)
+            for pre in (lambda: signatures.mask(s, 0), lambda: signatures.mask(s, 1), lambda: signatures.forwards(o, s, 0), lambda: signatures.sort_params(s, sources=True)):
+                try:
+                    pre()
+                except ValueError:
+                    pass
+            op = rnd.choice(['forwards', 'embed', 'merge'])
+            thunk = {'forwards': lambda: signatures.forwards(o, s, 0), 'embed': lambda: signatures.embed(o, s), 'merge': lambda: signatures.merge(o, s)}[op]
+            yield event(u, 'reuse/%d' % k, op, [o, s], thunk, case={'op': op + '-after-reuse', 'ins': [UO[a], U[b]]})
+    return gen
+
+
+def depth_events(uo, UO, n, seed):
+    """a callable reached twice at different depths: merge(embed(A, B, C), embed(A, C)) in both orders, embed(A, embed(B, C), ...)"""
+    import random
+    from sigtools import signatures
+
+    def gen(shard, nshards):
+        rnd = random.Random(seed)
+        for k in range(n):
+            idx = [rnd.randrange(len(UO)) for _ in range(3)]
+            if k % nshards != shard:
+                continue
+            A, B, C = [uo.sig(i, slot + 1) for slot, i in enumerate(idx)]
+            try:
+                e3, e2 = signatures.embed(A, B, C), signatures.embed(A, C)
+            except ValueError:
+                continue
+            for tag, ins in (('32', [e3, e2]), ('23', [e2, e3])):
+                yield event(uo, 'depth/%d-%s' % (k, tag), 'merge', ins, lambda: signatures.merge(*ins), plain=False, case={'op': 'merge-of-embeds-' + tag, 'ins': [UO[i] for i in idx]})
+    return gen
+
+
 def classify(tid, clause, case):
     # D20 (known finding): the SAME callable contributing through two merged signatures is listed twice
-    if clause == 'C08_NoDup' and case and case.get('op') == 'merge-same-callable':
+    if clause == 'C08_NoDup' and case and (case.get('op') == 'merge-same-callable' or str(case.get('op', '')).startswith('merge-of-embeds')):
         return 'nodup-same-callable-merged-twice'
     return clause
 
@@ -60,7 +104,8 @@ def run(check, tier, seed, scratch):
             alggen.embed_tuples(us, US, alggen.random_tuples(10000 if quick else 400000, len(US), 3, seed + 5)),
             alggen.mask_events(us, US, hide='all', sample_hide=0.05 if quick else 0.3, seed=seed),
             alggen.forwards_events(uo, UO, u2, U2, sample=0.01 if quick else 0.2, seed=seed, hide=True),
-            same_callable_events(u2, U2)]
+            same_callable_events(u2, U2),
+            reuse_events(u2, U2, uo, UO, 3000 if quick else 60000, seed + 11), depth_events(uo, UO, 3000 if quick else 60000, seed + 12)]
     if quick:
         # embed with same-named and different-named stars on a sample of the 495 universe
         pairs = alggen.random_tuples(25000, len(US), 2, seed + 9)
